@@ -4,6 +4,7 @@ import (
 	"fmt"
 	"runtime"
 	"strconv"
+	"strings"
 	"testing"
 
 	"verifharness/core"
@@ -94,6 +95,26 @@ func TestC19(t *testing.T) {
 			}
 			for _, s := range []string{"null", " null", "null,"} {
 				ok = ok && add("pool", c19FuncIndex("ReadNull"), []byte(s))
+			}
+			// the same scalars far into the input: offsets beyond 255, 4095 and 65535 (an offset kept
+			// in an interface or formatted into a message costs an allocation from some size on)
+			for _, pad := range []int{255, 256, 257, 300, 4096, 70000} {
+				ws := strings.Repeat(" ", pad-1) + "\n"
+				for _, fn := range allDecode {
+					ok = ok && add("pool.far", fn, []byte(ws+"null")) && add("pool.far", fn, []byte(ws+"null ,1"))
+				}
+				for _, lit := range []string{"0", "-12", "1.5e3", "18446744073709551615", "123456789012345678901234567890"} {
+					for _, fn := range append(append([]int{}, floatFns...), intFns...) {
+						ok = ok && add("pool.far", fn, []byte(ws+lit+","))
+					}
+				}
+				for _, s := range []string{"true", "false"} {
+					ok = ok && add("pool.far", c19FuncIndex("ReadBool"), []byte(ws+s)) && add("pool.far", c19FuncIndex("DecodeBool"), []byte(ws+s))
+				}
+				ok = ok && add("pool.far", c19FuncIndex("ReadNull"), []byte(ws+"null")) && add("pool.far", c19FuncIndex("NextTokenType"), []byte(ws+"[")) && add("pool.far", c19FuncIndex("NextToken"), []byte(ws+"{"))
+				for _, fn := range strFns {
+					ok = ok && add("pool.far", fn, []byte(ws+`"plain"`)) && add("pool.far", fn, []byte(ws+`"esc\n"`))
+				}
 			}
 			for b := 0; b < 256 && ok; b++ {
 				ok = add("pool", c19FuncIndex("NextTokenType"), []byte{' ', byte(b)}) && add("pool", c19FuncIndex("NextToken"), []byte{'\n', byte(b), 'x'})
